@@ -124,6 +124,11 @@ func (p *psTopic) WatchMessages(ctx context.Context) (<-chan *iface.EventPubSubM
 	ch := make(chan *iface.EventPubSubMessage, 128)
 	go func() {
 		defer close(ch)
+		// the subscription does not end with the context it was asked for
+		// under: unless it is closed the peer stays on the topic, and the
+		// others neither see it leave nor, later, come back
+		defer sub.Close()
+
 		for {
 			msg, err := sub.Next(ctx)
 			if err != nil {
